@@ -20,7 +20,7 @@ impl Prop for C01 {
             Tier::Quick => 8..40,
             Tier::Thorough => 10..80,
         };
-        let w = Weights { publisher: 0, restart: 0, overlap: 3, max_advance: 10 * 86400, ..Weights::default() };
+        let w = Weights { publisher: 0, restart: 0, overlap: 3, child_remove: 2, heal: 2, max_advance: 10 * 86400, ..Weights::default() };
         wcase_strategy(cfg_strategy(Just(false).boxed(), false), w, 5, ops)
     }
 
